@@ -131,3 +131,87 @@ def joint_matrix(means, cov, rows=None):
         P[a * r : (a + 1) * r, b * r : (b + 1) * r] = blk
         P[b * r : (b + 1) * r, a * r : (a + 1) * r] = blk.T
     return M, P
+
+
+# ---- exact embedding of raw fields (no floating-point arithmetic) and multi-precision joints -------------
+
+
+def raw_embed_mat(fact, A, d):
+    A = np.asarray(A, float)
+    if fact == "Dense":
+        return A
+    if fact == "Isotropic":
+        return np.kron(A, np.eye(d))
+    return _bd_embed(A)
+
+
+def raw_embed_vec(fact, v, d, repeat=False):
+    """Mean-like arrays (repeat=False) or per-coefficient scalings (repeat=True) in the dense layout."""
+    v = np.asarray(v, float)
+    if fact == "Dense":
+        return v
+    if fact == "Isotropic":
+        return np.repeat(v, d) if repeat else v.reshape(-1)
+    return v.T.reshape(-1)
+
+
+def dim_of(rv):
+    k = kind(rv)
+    m = np.asarray(rv.mean_flat)
+    if k == "Dense":
+        return None
+    return m.shape[1] if k == "Isotropic" else m.shape[0]
+
+
+def cond_mp(c, d):
+    """(G, xi, Lq) as mpmath object arrays, computed exactly from the raw fields: y = G x + xi + Lq eps."""
+    from pdv.refmodel import mpl
+
+    k = kind(c)
+    A = mpl.M(raw_embed_mat(k, c.A, d))
+    tl = mpl.M(raw_embed_vec(k, c.to_latent, d, repeat=True))
+    to = mpl.M(raw_embed_vec(k, c.to_observed, d, repeat=True))
+    nm = mpl.M(raw_embed_vec(k, c.noise.mean_flat, d))
+    nc = mpl.M(raw_embed_mat(k, c.noise.cholesky_flat, d))
+    absto = np.vectorize(abs, otypes=[object])(to)
+    return to[:, None] * A * tl[None, :], to * nm, absto[:, None] * nc
+
+
+def normal_mp(rv, d):
+    from pdv.refmodel import mpl
+
+    k = kind(rv)
+    return mpl.M(raw_embed_vec(k, rv.mean_flat, d)), mpl.M(raw_embed_mat(k, rv.cholesky_flat, d))
+
+
+def markov_joint_mp(post, d):
+    """Like markov_joint, in 50-digit arithmetic from raw fields (the float64 covariance recursion loses
+    digits because unpreconditioned kernels span many orders of magnitude)."""
+    from pdv.refmodel import mpl
+
+    mT, LT = normal_mp(post.marginal, d)
+    N = tree_len(post.conditional)
+    means = [None] * (N + 1)
+    means[N] = mT
+    cov = {(N, N): mpl.mm(LT, LT.T)}
+    for k in range(N - 1, -1, -1):
+        G, xi, Lq = cond_mp(tree_index(post.conditional, k), d)
+        means[k] = mpl.mm(G, means[k + 1]) + xi
+        cov[(k, k)] = mpl.mm(G, cov[(k + 1, k + 1)], G.T) + mpl.mm(Lq, Lq.T)
+        for j in range(k + 1, N + 1):
+            cov[(k, j)] = mpl.mm(G, cov[(k + 1, j)])
+    return means, cov
+
+
+def joint_matrix_mp(means, cov, rows):
+    from pdv.refmodel import mpl
+
+    T = len(means)
+    r = len(rows)
+    M = np.concatenate([means[k][rows] for k in range(T)])
+    P = mpl.zeros(T * r, T * r)
+    for (a, b), v in cov.items():
+        blk = v[np.ix_(rows, rows)]
+        P[a * r : (a + 1) * r, b * r : (b + 1) * r] = blk
+        P[b * r : (b + 1) * r, a * r : (a + 1) * r] = blk.T
+    return M, P
